@@ -8,12 +8,17 @@ pub mod c10;
 pub mod c14;
 pub mod c19;
 pub mod c20;
+pub mod ctree;
 
-pub fn run(prop: &str, rep: &mut Rep, _args: &[String]) -> bool {
+pub fn run(prop: &str, rep: &mut Rep, args: &[String]) -> bool {
     match prop {
         "C03" => c03::run(rep),
         "C04" => c04::run(rep),
         "C05" => c05::run(rep),
+        "C06" => ctree::run(rep, crate::trees::Focus::State, args),
+        "C07" => ctree::run(rep, crate::trees::Focus::Proofs, args),
+        "C08" => ctree::run(rep, crate::trees::Focus::Batch, args),
+        "C15" => ctree::run(rep, crate::trees::Focus::Empties, args),
         "C09" => c09::run(rep),
         "C10" => c10::run(rep),
         "C14" => c14::run(rep),
